@@ -547,6 +547,8 @@ EXPECTED_TAGS = {
     'write-state': ['dropped-after-annotated', 'all-current', 'xobject', 'PNG', 'JPEG'],
     'bookmark-tree': ['ok', 'assert'],
     'text-decoration': ['union', 'pass-through', 'text_decoration_line', 'text_decoration_color'],
+    'attachment-dates': ['from-clock', 'reproducible', 'file', 'url'],
+    'svg-draw': ['cycle', 'acyclic', 'fails', 'no-failure'],
     'render-state': ['renders1', 'renders2', 'renders3', 'renders4', 'font-faces', 'caller-cache', 'folder-cache',
                      'raw-sheet'],
     'history (validation)': ['process-vs-process', 'same-html-object', 'write-twice', 'snapshot', 'cache-dict',
@@ -858,6 +860,137 @@ def section_text_decoration(run):
         sec.add(sx.line('textdeco', key, value, parent, cascaded), out,
                 meta={'key': key, 'value': value, 'parent': parent, 'cascaded': cascaded}, nontrivial=both,
                 tags=[key, 'union' if both else 'pass-through'])
+
+
+# ---------------------------------------------------------------------------------------------- attachment dates
+
+def run_attachment_dates(created, modified, use_file, now):
+    """The real Attachment.__init__ with `datetime.now()` (as weasyprint/__init__.py reads it) returning `now` ->
+    the dates as write_pdf_attachment formats them, and the file times the constructor could read."""
+    import datetime as datetime_module
+    import weasyprint
+    fmt = 'D:%Y%m%d%H%M%SZ'
+
+    def moment(text):
+        return None if text is None else datetime_module.datetime.strptime(text, fmt)
+    fixed = moment(now)
+
+    class Clock(datetime_module.datetime):
+        @classmethod
+        def now(cls, tz=None):
+            return fixed
+    saved = weasyprint.datetime
+    weasyprint.datetime = Clock
+    path = None
+    try:
+        if use_file:
+            handle, path = tempfile.mkstemp(prefix='c19att')
+            os.close(handle)
+            os.utime(path, (86400 * 400 + 7, 86400 * 500 + 11))
+            stat = os.stat(path)
+            file_times = [datetime_module.datetime.fromtimestamp(stat.st_ctime).strftime(fmt),
+                          datetime_module.datetime.fromtimestamp(stat.st_mtime).strftime(fmt)]
+            attachment = weasyprint.Attachment(filename=path, created=moment(created), modified=moment(modified))
+        else:
+            file_times = None
+            attachment = weasyprint.Attachment(string=b'x', created=moment(created), modified=moment(modified))
+        return f'{attachment.created.strftime(fmt)} {attachment.modified.strftime(fmt)}', file_times
+    finally:
+        weasyprint.datetime = saved
+        if path is not None:
+            os.unlink(path)
+
+
+def section_attachment_dates(run):
+    sec = run.section(
+        'attachment-dates',
+        'real Attachment.__init__ under a fake clock: created / modified given or not, a file name (times read from '
+        'the file system) or not, SOURCE_DATE_EPOCH set or not; compared: the /CreationDate and /ModDate that '
+        'write_pdf_attachment writes; non-trivial = a date comes from the clock')
+    stamps = ['D:20200102030405Z', 'D:19991231235959Z', 'D:20260930173740Z', 'D:20260930173741Z']
+    saved_epoch = os.environ.get('SOURCE_DATE_EPOCH')
+    try:
+        for _ in range(run.n(60, 600)):
+            created, modified = run.rng.choice([None, None, stamps[0]]), run.rng.choice([None, None, stamps[1]])
+            use_file, now = run.rng.random() < 0.4, run.rng.choice(stamps[2:])
+            epoch = run.rng.choice([None, '1600000000', '0'])
+            if epoch is None:
+                os.environ.pop('SOURCE_DATE_EPOCH', None)
+            else:
+                os.environ['SOURCE_DATE_EPOCH'] = epoch
+            try:
+                out, file_times = run_attachment_dates(created, modified, use_file, now)
+            except Exception as exc:  # noqa: BLE001
+                out, file_times = f'err:{type(exc).__name__}', None
+            clock = not use_file and (created is None or modified is None)
+            sec.add(sx.line('attachdates', created, modified, file_times, now, epoch), out,
+                    meta={'created': created, 'modified': modified, 'file': use_file, 'now': now, 'epoch': epoch},
+                    nontrivial=clock, tags=['from-clock' if clock else 'reproducible', 'file' if use_file else 'url'])
+    finally:
+        if saved_epoch is None:
+            os.environ.pop('SOURCE_DATE_EPOCH', None)
+        else:
+            os.environ['SOURCE_DATE_EPOCH'] = saved_epoch
+
+
+# ---------------------------------------------------------------------------------------------- SVG re-entrancy
+
+def run_svg_draw(root, refs, fails):
+    """Real SVGImage objects whose `_svg.draw` draws other SVGImage objects (as <image href> does) and may raise ->
+    the images whose drawing was entered, in order, and the images whose `_drawing` flag is still up afterwards."""
+    from weasyprint.images import SVGImage
+    entered = []
+    images = []
+
+    class Drawing:
+        def __init__(self, number):
+            self.number = number
+
+        def draw(self, *args, **kwargs):
+            entered.append(str(self.number))
+            if len(entered) > 500:
+                raise RecursionError('unbounded nesting')
+            for other in refs[self.number]:
+                images[other].draw(None, 1, 1, 'auto')
+            if fails[self.number]:
+                raise ValueError('drawing failed')
+    for number in range(len(refs)):
+        image = SVGImage.__new__(SVGImage)
+        image.__dict__.update(_svg=Drawing(number), _base_url=f'img{number}', _url_fetcher=None, _context=None,
+                              _drawing=False)
+        images.append(image)
+    images[root].draw(None, 1, 1, 'auto')
+    flagged = [str(n) for n, image in enumerate(images) if image._drawing]
+    return ' '.join(entered) + ' | ' + ' '.join(flagged)
+
+
+def section_svg_draw(run):
+    sec = run.section(
+        'svg-draw',
+        'real SVGImage.draw on 1..5 image objects whose drawings draw each other (cycles, self-inclusion, repeated '
+        'references) and fail or not; compared: which drawings are entered, in order, and that no image is left with '
+        'its `_drawing` flag up; non-trivial = the reference graph has a cycle through the root')
+    logger = __import__('logging').getLogger('weasyprint')
+    level = logger.level
+    logger.setLevel(100)
+    try:
+        for _ in range(run.n(300, 3000)):
+            n = run.rng.randrange(1, 6)
+            refs = [[run.rng.randrange(n) for _ in range(run.rng.choice([0, 1, 1, 2, 3]))] for _ in range(n)]
+            fails = [run.rng.random() < 0.25 for _ in range(n)]
+            root = run.rng.randrange(n)
+            out = docs.outcome(lambda: run_svg_draw(root, refs, fails))
+            seen, todo = set(), list(refs[root])
+            while todo:
+                node = todo.pop()
+                if node not in seen:
+                    seen.add(node)
+                    todo.extend(refs[node])
+            sec.add(sx.line('svgdraw', root, refs, fails), out, meta={'root': root, 'refs': refs, 'fails': fails},
+                    nontrivial=root in seen, tags=['cycle' if root in seen else 'acyclic',
+                                                   'fails' if any(fails) else 'no-failure'])
+    finally:
+        logger.setLevel(level)
 
 
 # ---------------------------------------------------------------------------------------------- write_pdf sinks
@@ -1529,6 +1662,14 @@ def section_history(run):
     # fixed sequences of the jobs that use process-wide objects, against each job ALONE in a process (first: their
     # disagreements name the history that makes a render differ)
     section_sequences(run, sec, jobs, nonce)
+    # no write that follows another write of the same Document (the copy after the document) raises
+    for index, job in enumerate(jobs):
+        for field in ('pdf', 'pdf_copy'):
+            value = str(reference[index].get(field, ''))
+            nonce[0] += 1
+            sec.add(sx.line('echo', 'written', nonce[0]), value if value.startswith('error-after') else 'written',
+                    meta={'validation': 'later-write', 'job': job, 'how': {'field': field, 'fresh_process': True}},
+                    nontrivial=True, tags=['later-write'])
     # the fresh processes agree with each other
     for hashseed, other in references[1:]:
         for index in range(len(jobs)):
@@ -2017,6 +2158,30 @@ def finding_svg_rewrites_tree():
     return mutated or first != second
 
 
+def finding_attachment_dates():
+    """The same document, the same SOURCE_DATE_EPOCH, the same identifier, rendered and written when the clock shows
+    another second: the /CreationDate and /ModDate of the embedded files differ, hence the PDF bytes."""
+    import datetime as datetime_module
+    import weasyprint
+    from harness import c19_history
+    os.environ['SOURCE_DATE_EPOCH'] = c19_history.EPOCH
+    source = ('<link rel="attachment" href="data:text/plain;base64,aGVsbG8=" title="n"><title>t</title>'
+              '<p>ab <a rel="attachment" href="data:text/plain,zz">k</a></p>')
+    outputs = []
+    saved = weasyprint.datetime
+    try:
+        for second in (40, 41):
+            class Clock(datetime_module.datetime):
+                @classmethod
+                def now(cls, tz=None, second=second):
+                    return datetime_module.datetime(2026, 9, 30, 17, 37, second)
+            weasyprint.datetime = Clock
+            outputs.append(docs.render(source).write_pdf(pdf_identifier=b'x'))
+    finally:
+        weasyprint.datetime = saved
+    return outputs[0] != outputs[1]
+
+
 def finding_bleedbox_cap():
     """(repaired, d924a7c: regression case)  bleed 20px: BleedBox at zoom 2 was not 2 x BleedBox at zoom 1 (the 10pt
     cap was not scaled)."""
@@ -2024,6 +2189,24 @@ def finding_bleedbox_cap():
     (pages1, _, _), _ = exact_tree(document, 1)
     (pages2, _, _), _ = exact_tree(document, 2)
     return [2 * v for v in pages1[1][2][1:]] != list(pages2[1][2][1:])
+
+
+def finding_attachment_second_write():
+    """(repaired, a0bb005, filed under C18: regression case)  A document with attachments written a second time, and
+    its copy written after it, raised AttributeError (Attachment.source was a one-shot context manager)."""
+    from harness import c19_history
+    os.environ['SOURCE_DATE_EPOCH'] = c19_history.EPOCH
+    source = ('<link rel="attachment" href="data:text/plain;base64,aGVsbG8=" title="n"><title>t</title>'
+              '<p>ab <a rel="attachment" href="data:text/plain,zz">k</a></p>')
+    with c19_history.frozen_clock():
+        document = docs.render(source)
+        first = document.write_pdf(pdf_identifier=b'x')
+        try:
+            second = document.write_pdf(pdf_identifier=b'x')
+            copied = document.copy().write_pdf(pdf_identifier=b'x')
+        except Exception:  # noqa: BLE001
+            return True
+    return not (first == second == copied)
 
 
 # Repaired findings (`fixed:` lines of known_findings.txt): the committed inputs stay as regression cases.  A fixed
@@ -2037,6 +2220,10 @@ REGRESSIONS = {
         finding_cache_options, 'bca20a5',
         'a cache shared by a render with jpeg_quality=5 and a render with default options: the second embeds the '
         'first\'s image data (warm != cold)'),
+    'attachment-second-write-crash': (
+        finding_attachment_second_write, 'a0bb005',
+        'a document with attachments written twice (and its copy written after it) does not give the same bytes three '
+        'times (finding of C18: the second write raised AttributeError)'),
     'bleedbox-cap-not-zoomed': (
         finding_bleedbox_cap, 'd924a7c',
         '@page{size:100px;bleed:20px}: BleedBox at zoom 2 is not 2 x BleedBox at zoom 1'),
@@ -2068,7 +2255,8 @@ class C19(PropCheck):
                   image_key_table.generate)
     modules = ('WpModel.Props.C19', 'WpModel.Props.C19Purity', 'WpModel.Props.C19State', 'WpModel.Witness.C19',
                'WpModel.Props.C19Pm2', 'WpModel.Props.C19Key', 'WpModel.Props.C19Names', 'WpModel.Props.C19Cascade',
-               'WpModel.Props.C19Memo')
+               'WpModel.Props.C19Memo', 'WpModel.Props.C19Attach',
+               'WpModel.Props.C19Svg')
     trusted_base = (
         'modelled, not verified: generate_pdf / add_links / make_bookmark_tree coordinates, Document.copy, '
         'resolve_links, get_image_from_uri + RasterImage cache writes, write_pdf sinks, the allocation skeleton of '
@@ -2113,6 +2301,8 @@ class C19(PropCheck):
         timed('sinks', section_sinks, run)
         timed('render-state', section_render_state, run)
         timed('text-decoration', section_text_decoration, run)
+        timed('attachment-dates', section_attachment_dates, run)
+        timed('svg-draw', section_svg_draw, run)
         timed('functions', section_functions, run, factory)
         timed('module-state', section_module_state, run, module_before)
         run.extra['section_seconds'] = timings
@@ -2137,6 +2327,14 @@ class C19(PropCheck):
             return self._judge_sinks(d)
         if section == 'render-state':
             return self._judge_render_state(d)
+        if section == 'svg-draw':
+            out = run_svg_draw(meta['root'], meta['refs'], meta['fails'])
+            flagged = out.split(' | ')[1] if ' | ' in out else ''
+            if flagged.strip():
+                return (f'after SVGImage.draw of image {meta["root"]} (references {meta["refs"]}, failing {meta["fails"]}) '
+                        f'the image(s) {flagged} still have _drawing set: the cached image object was changed by being '
+                        'drawn, and its next use (another element, page, write or render sharing the cache) draws nothing')
+            return None
         if section == 'text-decoration':
             out = run_text_decoration(meta['key'], meta['value'], meta['parent'], meta['cascaded'])
             if out.startswith('mutated-argument'):
@@ -2365,7 +2563,8 @@ class C19(PropCheck):
 
     # -- replay -----------------------------------------------------------------------------------------------
     def finding_replays(self):
-        return {'dpi-thumbnail-replaces-source': finding_dpi_rewrite,
+        return {'attachment-dates-from-wall-clock': finding_attachment_dates,
+                'dpi-thumbnail-replaces-source': finding_dpi_rewrite,
                 'font-config-accumulates-font-faces': finding_font_config,
                 'svg-rewrites-element-tree': finding_svg_rewrites_tree}
 
@@ -2440,7 +2639,8 @@ MANIFEST = {
             'objects are runtime behaviour; they are exercised by the history harness (validation), not proved. Known '
             'findings: dpi: the first write replaces the image source by its thumbnail; a '
             'document\'s @font-face stays registered in the caller\'s FontConfiguration; drawing an inline <svg> with '
-            'patterns / masks / text white space rewrites the caller\'s HTML tree. Repaired (regression cases kept): '
+            'patterns / masks / text white space rewrites the caller\'s HTML tree; the dates of attachments embedded '
+            'from a URL are the wall clock (SOURCE_DATE_EPOCH is not read). Repaired (regression cases kept): '
             'BleedBox cap not scaled by zoom; stale link_annotation after an earlier write; image cache ignoring the '
             'image options.',
 }
